@@ -110,6 +110,27 @@ func apply(w *world, thread int, o Op) string {
 			return "ok:dir"
 		}
 		return fmt.Sprintf("ok:file:%d", fi.Size())
+	case "readdir":
+		entries, err := hackpadfs.ReadDir(fs, o.P)
+		if err != nil {
+			return res(err)
+		}
+		var names []string
+		for _, e := range entries {
+			n := e.Name()
+			if e.IsDir() {
+				n += "/"
+			}
+			names = append(names, n)
+		}
+		sort.Strings(names)
+		return "ok:[" + strings.Join(names, " ") + "]"
+	case "cat":
+		b, err := hackpadfs.ReadFile(fs, o.P)
+		if err != nil {
+			return res(err)
+		}
+		return "ok:" + string(b)
 	case "hopen":
 		if w.handles[thread] != nil {
 			_ = w.handles[thread].Close()
@@ -304,7 +325,7 @@ func parent(p string) string {
 
 func mutates(k string) bool {
 	switch k {
-	case "stat", "hread", "hclose":
+	case "stat", "hread", "hclose", "readdir", "cat":
 		return false
 	}
 	return true
